@@ -170,8 +170,10 @@ def execute(scn, keep_log=False, hook=None):
             orig(fr)
         s.port.deliver = wrapped
     cap = 0.5 + npk * ((0.05 if not fd else 0.012) if mode == 'bam' else 0.01) + (0.3 if scn.get('chain') else 0)
+    states = set()
     for _ in range(int(cap / 0.02) + 1):
         sim.run_for(0.02)
+        states.add(common.abstract_state(w))
         if not common.busy(w) and not any(s.job.parked_at == 'preempt' for s in w.stacks.values()) and sim.now - t0 > 60_000_000 and (
                 not scn.get('chain') or (chain['accepted'] is not None and sim.now - chain['accepted'] > 20_000_000) or chain['tries'] >= 60):
             break
@@ -202,7 +204,7 @@ def execute(scn, keep_log=False, hook=None):
     viol += common.idle_violations(w)
     fired = sum(len(t.fired) for t in tr.values())
     res = {'violations': viol, 'stats': {'preempt_fired_runs': int(fired > 0), 'rx_while_parked': rx_parked[0], 'frames': len(bus.frames)},
-           'nontrivial': fired > 0, 'digest': sim.digest(), 'sim_s': (sim.now - t0) / 1e9,
+           'nontrivial': fired > 0, 'digest': sim.digest(), 'sim_s': (sim.now - t0) / 1e9, 'states': states,
            'summary': '%s %s win=%s preempt=%s frames=%d' % (scn['stacks'][0]['dll'], mode, scn['stacks'][0]['max_cmdt'], scn.get('preempt'), len(bus.frames))}
     if scn.get('record'):
         res['points'] = {n: t.points for n, t in tr.items()}
